@@ -414,6 +414,11 @@ pub fn run_case(out: &mut Out, header: &str) {
         crate::c06cmt::run_case(out, header);
         return;
     }
+    if matches!(a.get(2), Some(&"nm") | Some(&"nmw")) {
+        // where defined names live, after sheet removals / insertions (harness/src/c06names.rs)
+        crate::c06names::run_case(out, header);
+        return;
+    }
     if a.get(2) == Some(&"fuzz") {
         let seed = a.get(3).and_then(|x| x.parse().ok()).unwrap_or(0);
         let n = a.get(4).and_then(|x| x.parse().ok()).unwrap_or(100);
@@ -567,6 +572,7 @@ pub fn gen(tier: Tier, seed: u64) -> Vec<String> {
     }
     v.extend(crate::c06codec::gen(tier, &mut rng));
     v.extend(crate::c06cmt::gen(tier, &mut rng));
+    v.extend(crate::c06names::gen(tier, &mut rng));
     v
 }
 
